@@ -86,6 +86,9 @@ def formula(I, fn, kwargs):
         if out[0] != 'return':
             raise Unsupported('in loop invariant: ' + str(out[1]))
         extra = c2.pc[len(base_pc):]
+        for ent in c2.side:
+            # obligations raised while evaluating the invariant (e.g. the precondition of a lemma applied there)
+            ctx.side.append((ent[0], ent[1], list(ent[2]), list(c2.facts)))
         for (ln, lc, lpc, lfacts) in getattr(c2, 'lemmas', []):
             # a proof step written inside the invariant: its own obligation under what is known here, then available
             ctx.side.append((f'loop-lemma {ln}', lc, list(lpc), list(lfacts)))
